@@ -262,3 +262,6 @@ Proof.
   cbn [c_cur c_rec floor_of] in H. rewrite H; [reflexivity| |exact Hv|exact Hc].
   left. reflexivity.
 Qed.
+
+Lemma record_wf ops s : cwf s -> c_cur (crun s ops) < two64 -> cwf (crun s ops).
+Proof. intros H1 H2. exact (proj1 (crun_spec ops s H1 H2)). Qed.
